@@ -153,11 +153,15 @@ type vfC07Plan struct {
 	// Gates: the n-th UDP() dial / Hook call for sid blocks (durably, on the world's cond) until the
 	// driver opens the gate of that session: a dial / hook that takes as long as the harness wants
 	// without any sleep (see vfC07World.AwaitSweepThenOpen).
-	DialGate  map[uint32]map[int]bool `json:"dial_gate,omitempty"`
-	HookGate  map[uint32]map[int]bool `json:"hook_gate,omitempty"`
-	SendLimit int                     `json:"send_limit,omitempty"` // >0: SendMessage reports DatagramTooLarge above this size
-	DelaySeed uint64                  `json:"delay_seed"`
-	NoDelays  bool                    `json:"no_delays,omitempty"`
+	DialGate map[uint32]map[int]bool `json:"dial_gate,omitempty"`
+	HookGate map[uint32]map[int]bool `json:"hook_gate,omitempty"`
+	// EndCloseSleep: the first eventLogger.Close called after the IO ended (i.e. by Run's final
+	// cleanup) sleeps this long (virtual; no lock is held there), so that a sweep instant can fall
+	// into the middle of the final cleanup.
+	EndCloseSleep int64  `json:"end_close_sleep_ns,omitempty"`
+	SendLimit     int    `json:"send_limit,omitempty"` // >0: SendMessage reports DatagramTooLarge above this size
+	DelaySeed     uint64 `json:"delay_seed"`
+	NoDelays      bool   `json:"no_delays,omitempty"`
 	// Policy: nil = allow everything. Must be a pure function of the destination string.
 	Policy func(addr string) bool `json:"-"`
 }
@@ -197,6 +201,23 @@ type vfC07Msg struct {
 	Addr      string
 	Len       int
 	FragCount int
+	// Addrs: set when the fragments of this message do not all carry the same address (hostile
+	// client). The datagram may then only go to an address that one of its fragments named.
+	Addrs []string
+	// Undeliverable: a fragment set that can never complete (e.g. FragID >= FragCount).
+	Undeliverable bool
+}
+
+func (m *vfC07Msg) names(addr string) bool {
+	if addr == m.Addr {
+		return true
+	}
+	for _, a := range m.Addrs {
+		if a == addr {
+			return true
+		}
+	}
+	return false
 }
 
 type vfC07Reply struct {
@@ -278,9 +299,12 @@ type vfC07World struct {
 	frozen bool
 	lastT  int64
 
-	gateOpen    map[uint32]bool
-	gateSeq     map[uint32]int // log position at which a gated call of sid started waiting
-	gateOutcome map[string]int
+	ioEnded      bool // ReceiveMessage has returned the IO error
+	endSleepDone bool
+	origOf       map[string]string // rewritten destination -> destination the hook saw
+	gateOpen     map[uint32]bool
+	gateSeq      map[uint32]int // log position at which a gated call of sid started waiting
+	gateOutcome  map[string]int
 
 	runStart    int64 // virtual time at which Run() was started
 	runRet      bool
@@ -294,7 +318,7 @@ func vfC07NewWorld(plan *vfC07Plan) *vfC07World {
 	w := &vfC07World{
 		start: time.Now(), plan: plan,
 		nth: map[string]int{}, msgs: map[int]*vfC07Msg{}, replies: map[int]*vfC07Reply{},
-		parts: map[uint64][][]byte{}, gateOpen: map[uint32]bool{}, gateSeq: map[uint32]int{}, gateOutcome: map[string]int{},
+		parts: map[uint64][][]byte{}, gateOpen: map[uint32]bool{}, origOf: map[string]string{}, gateSeq: map[uint32]int{}, gateOutcome: map[string]int{},
 	}
 	w.cond = sync.NewCond(&w.mu)
 	return w
@@ -380,6 +404,7 @@ func (w *vfC07World) ReceiveMessage() (*protocol.UDPMessage, error) {
 		return it.m, nil
 	}
 	w.add(vfC07Ev{Kind: "ioend", Err: w.ioErr.Error()})
+	w.ioEnded = true
 	return nil, w.ioErr
 }
 
@@ -459,6 +484,7 @@ func (w *vfC07World) Hook(data []byte, reqAddr *string) error {
 		w.add(vfC07Ev{Kind: "hook", Ph: 2, Sid: sid, No: no, Addr: *reqAddr, Aux: int64(hn)})
 		// remember the original address under the rewritten one
 		w.nth["orig/"+*reqAddr] = no
+		w.origOf[*reqAddr] = orig
 		return nil
 	case vfC07HookFail:
 		w.add(vfC07Ev{Kind: "hook", Ph: 2, Sid: sid, No: no, Err: "hook-fail"})
@@ -500,9 +526,7 @@ func (w *vfC07World) UDP(reqAddr string) (UDPConn, error) {
 	if no, ok := w.nth["orig/"+reqAddr]; ok && strings.HasPrefix(reqAddr, "rw") {
 		s.override = true
 		s.firstNo = no
-		if m := w.msgs[no]; m != nil {
-			s.origAddr = m.Addr
-		}
+		s.origAddr = w.origOf[reqAddr] // the destination the hook was asked about, before it rewrote it
 	}
 	w.socks = append(w.socks, s)
 	s.dialSeq = w.add(vfC07Ev{Kind: "dial", Ph: 2, Sid: sid, Sock: s.id, Addr: reqAddr})
@@ -642,6 +666,10 @@ func (l *vfC07ELog) Close(sessionID uint32, err error) {
 	if w.plan.SlowClose[sessionID] && !w.plan.NoDelays {
 		d = 20 * time.Millisecond
 	}
+	if w.ioEnded && !w.endSleepDone && w.plan.EndCloseSleep > 0 {
+		w.endSleepDone = true
+		d = time.Duration(w.plan.EndCloseSleep)
+	}
 	es := ""
 	if err != nil {
 		var ve *vfC07Err
@@ -651,8 +679,16 @@ func (l *vfC07ELog) Close(sessionID uint32, err error) {
 			es = "foreign:" + err.Error()
 		}
 	}
+	var bySweeper int64
+	if w.ioEnded {
+		// non-vacuity only: was this Close event, after the IO ended, issued by the periodic sweeper?
+		var sb [4096]byte
+		if strings.Contains(string(sb[:runtime.Stack(sb[:], false)]), "idleCleanupLoop") {
+			bySweeper = 1
+		}
+	}
 	w.inflight++
-	w.add(vfC07Ev{Kind: "xclose", Ph: 1, Sid: sessionID, Err: es})
+	w.add(vfC07Ev{Kind: "xclose", Ph: 1, Sid: sessionID, Err: es, Aux: bySweeper})
 	w.mu.Unlock()
 	w.sleep(d)
 	w.mu.Lock()
@@ -921,6 +957,17 @@ func vfC07Census(buf []byte) []string {
 // in one of the fakes) panics in synctest.Test; that panic is caught and reported too.
 func vfC07RunBubble(t *testing.T, plan *vfC07Plan, timeout time.Duration, stackBuf []byte,
 	drive func(w *vfC07World, sm *udpSessionManager)) (w *vfC07World) {
+	// The bubble runs in a subtest: if the race detector fires inside the bubble, synctest.Test
+	// calls FailNow on the T it was given, which would end the whole harness part before this
+	// timeline is analysed. With a subtest only the subtest's goroutine ends; the timeline is still
+	// judged by the oracles and the following timelines still run (the race itself is reported by
+	// the runner's race oracle).
+	t.Run("bubble", func(t *testing.T) { w = vfC07RunBubbleIn(t, plan, timeout, stackBuf, drive, &w) })
+	return w
+}
+
+func vfC07RunBubbleIn(t *testing.T, plan *vfC07Plan, timeout time.Duration, stackBuf []byte,
+	drive func(w *vfC07World, sm *udpSessionManager), out **vfC07World) (w *vfC07World) {
 	defer func() {
 		if r := recover(); r != nil {
 			if w == nil || !strings.Contains(fmt.Sprint(r), "deadlock:") {
@@ -931,6 +978,7 @@ func vfC07RunBubble(t *testing.T, plan *vfC07Plan, timeout time.Duration, stackB
 	}()
 	synctest.Test(t, func(t *testing.T) {
 		w = vfC07NewWorld(plan)
+		*out = w
 		sm := newUDPSessionManager(w, &vfC07ELog{w}, timeout)
 		done := make(chan error, 1)
 		w.runStart = w.now()
@@ -1128,8 +1176,8 @@ func vfC07CheckCommon(k *vfKit, w *vfC07World, ix *vfC07Index, report vfC07Repor
 				report("udp-acl:override-not-used", wr.Seq, "session %d was rewritten by the hook to %s but message %d was sent to %s", s.sid, s.dialAddr, wr.No, wr.Addr)
 				continue
 			}
-		} else if wr.Addr != m.Addr {
-			report("udp:wrong-destination", wr.Seq, "message %d addressed to %s was sent to %s", wr.No, m.Addr, wr.Addr)
+		} else if !m.names(wr.Addr) {
+			report("udp:wrong-destination", wr.Seq, "message %d addressed to %s %v was sent to %s", wr.No, m.Addr, m.Addrs, wr.Addr)
 			continue
 		}
 		if !w.allowed(wr.Addr) {
